@@ -260,6 +260,21 @@ fn handle(req: &Value) -> Value {
                 const a = w('A'); const b = w('B'); res(1); await a; await b; log.join('')";
             run_program(src, Some("/main.ts"), 1_000_000)
         }
+        "gc_repeat" => {
+            // run the same self-contained program several times on ONE interpreter; live objects after collect() each time
+            let src = req["src"].as_str().unwrap_or("");
+            let n = req["times"].as_u64().unwrap_or(6);
+            let mut interp = Interpreter::new();
+            let mut live = Vec::new();
+            let mut outs = Vec::new();
+            for _ in 0..n {
+                let o = run_on(&mut interp, src, None, 50_000_000);
+                outs.push(o["ok"].clone());
+                interp.collect();
+                live.push(interp.gc_stats().live_objects);
+            }
+            json!({"live": live, "ok": outs})
+        }
         "number_to_string" => {
             let bits = u64::from_str_radix(req["bits"].as_str().unwrap_or("0"), 16).unwrap_or(0);
             json!({"out": tsrun::value::number_to_string(f64::from_bits(bits)).to_string()})
